@@ -13,7 +13,7 @@ import ast
 import inspect
 
 from ..paths import enumerate_paths
-from ..program import AnalysisError, Program, unparse, short, walk_no_nested, increment_of
+from ..program import AnalysisError, Program, unparse, short, walk_no_nested, increment_of, sequential_expand, call_chain, xunparse, single_defs
 from ..report import Report
 
 
@@ -127,8 +127,13 @@ def cursor(prog: Program, rep: Report) -> None:
         body = ifs[0].body
         nexts = [n for s in body for n in ast.walk(s) if isinstance(n, ast.Call) and unparse(n.func) in ("next", "self.__next__")]
         apps = [n for s in body for n in ast.walk(s) if isinstance(n, ast.Call) and unparse(n.func).endswith(".append")]
-        ok = len(nexts) == 1 and len(apps) == 1 and unparse(apps[0].func) == "self.modules['state'].append" and [unparse(k.value) for k in apps[0].keywords if k.arg is None] == ["V"] and not ifs[0].orelse
-        rep.check(rule, up.qual, "next(self) once, its rows appended to the state once", ok, what_bad=f"{len(nexts)} next call(s), appends {[short(a) for a in apps]}", what_ok="V = next(self); state.append(**V)", loc=up.loc())
+        recs, env = sequential_expand(body)
+        ok = len(nexts) == 1 and len(apps) == 1 and unparse(apps[0].func) == "self.modules['state'].append" and not ifs[0].orelse
+        if ok:
+            star = [k.value for k in apps[0].keywords if k.arg is None]
+            src = unparse(env.get(star[0].id)) if len(star) == 1 and isinstance(star[0], ast.Name) and star[0].id in env else (unparse(star[0]) if len(star) == 1 else "")
+            ok = src in ("next(self)", "self.__next__()")
+        rep.check(rule, up.qual, "next(self) once, its rows appended to the state once", ok, what_bad=f"{len(nexts)} next call(s), appends {[short(a) for a in apps]}", what_ok="rows = next(self); state.append(**rows)", loc=up.loc())
     nx = prog.role_func("release", "__next__")
     paths = enumerate_paths(nx.node.body)
     for p in paths:
@@ -139,6 +144,8 @@ def cursor(prog: Program, rep: Report) -> None:
         elif p.exit == "raise":
             rep.check(rule, nx.qual, f"exhausted table raises StopIteration without moving the cursor", not incs, what_bad="cursor moved on the error path", what_ok="ok", loc=nx.loc())
     rd = [n for n in walk_no_nested(nx.node) if isinstance(n, ast.Assign) and unparse(n.value) == "self._B[self._index]"]
+    if not rd:
+        rd = [n for n in walk_no_nested(nx.node) if isinstance(n, ast.Subscript) and unparse(n) == "self._B[self._index]"][:1]
     inc = [n for n in walk_no_nested(nx.node) if (increment_of(n) or ("", 0))[0] == "self._index"]
     rep.check(rule, nx.qual, "frame taken at the cursor before it is advanced", len(rd) == 1 and bool(inc) and rd[0].lineno < inc[0].lineno, what_bad="the frame of the next release time is returned", what_ok="self._B[self._index], then += 1", loc=nx.loc())
     guard = [n for n in walk_no_nested(nx.node) if isinstance(n, ast.If) and unparse(n.test) in ("self._index >= len(self.times)", "self._index >= len(self._B)")]
@@ -148,31 +155,57 @@ def cursor(prog: Program, rep: Report) -> None:
 def multiplicity(prog: Program, rep: Report) -> None:
     rule = "R04.4"
     nx = prog.role_func("release", "__next__")
-    chain = []
-    for n in nx.node.body:
-        if isinstance(n, ast.Assign):
-            chain.append((unparse(n.targets[0]), unparse(n.value)))
-        if isinstance(n, ast.Expr) and isinstance(n.value, ast.Call):
-            chain.append(("<expr>", unparse(n.value)))
-    txt = dict(chain)
-    rep_ok = ("V0", "V0.repeat(V.mult)") in chain and ("V0", "V.to_records(index=False)") in chain and ("V", "pd.DataFrame(V0)") in chain
-    idx = {v: i for i, (t, v) in enumerate(chain)}
-    order_ok = rep_ok and idx["V.to_records(index=False)"] < idx["V0.repeat(V.mult)"] < idx["pd.DataFrame(V0)"]
-    rep.check(rule, nx.qual, "rows repeated mult times: records -> repeat(V.mult) -> DataFrame", order_ok, what_bad=f"chain {chain}: each row must appear exactly `mult` times, in file-row order", what_ok="repeat(mult) of the same group", loc=nx.loc())
-    drops = [v for t, v in chain if ".drop(" in v and "'mult'" in v]
-    rep.check(rule, nx.qual, "mult column dropped after the repetition", bool(drops) and order_ok and idx[drops[0]] > idx["pd.DataFrame(V0)"], what_bad="mult is appended to the state / dropped before use", what_ok="dropped last", loc=nx.loc())
-    rets = [n for n in walk_no_nested(nx.node) if isinstance(n, ast.Return)]
-    rep.check(rule, nx.qual, "returns the repeated frame", len(rets) == 1 and unparse(rets[0].value) == "V", what_bad=f"returns {[unparse(r.value) for r in rets]}", what_ok="V", loc=nx.loc())
+    recs, env = sequential_expand(nx.node.body)
+    rets = [(st, v) for st, v in recs if isinstance(st, ast.Return)]
+    ok_chain = False
+    detail = "no top-level return"
+    frame_name = None
+    if len(rets) == 1:
+        v = rets[0][1]
+        detail = short(v, 160)
+        # pd.DataFrame(<group>.to_records(index=False).repeat(<group>.mult))
+        if isinstance(v, ast.Call) and unparse(v.func) in ("pd.DataFrame", "pandas.DataFrame", "DataFrame") and len(v.args) == 1:
+            chain, root = call_chain(v.args[0])
+            names = [c for c, _ in chain]
+            if names == ["repeat", "to_records"] and unparse(root) == "self._B[self._index]":
+                rp = chain[0][1]
+                arg = unparse(rp.args[0]) if rp.args else ""
+                kw = {k.arg: unparse(k.value) for k in chain[1][1].keywords}
+                ok_chain = arg in ("self._B[self._index].mult", "self._B[self._index]['mult']") and kw.get("index") == "False"
+        if isinstance(rets[0][0].value, ast.Name):
+            frame_name = rets[0][0].value.id
+    rep.check(rule, nx.qual, "rows repeated mult times: DataFrame(group.to_records(index=False).repeat(group.mult)) on every path", ok_chain, what_bad=f"returned frame is `{detail}`: each row of the group at the cursor must appear exactly `mult` times, in file-row order, on every path", what_ok="repeat(mult) of the same group", loc=nx.loc())
+    # the mult column is dropped from the returned frame after the repetition
+    drops = [st for st, v in recs if isinstance(st, ast.Expr) and isinstance(st.value, ast.Call) and isinstance(st.value.func, ast.Attribute) and st.value.func.attr == "drop" and "'mult'" in unparse(st.value)]
+    ok_drop = False
+    for d in drops:
+        recv = unparse(d.value.func.value)
+        inplace = any(k.arg == "inplace" and unparse(k.value) == "True" for k in d.value.keywords)
+        after = any(st is d for st, _ in recs) and all(st.lineno < d.lineno for st, v in recs if isinstance(st, ast.Assign) and isinstance(st.targets[0], ast.Name) and st.targets[0].id == recv and v is not None and "repeat" in unparse(v))
+        ok_drop = ok_drop or (recv == frame_name and inplace and after)
+    if not ok_drop and len(rets) == 1:
+        # functional form: frame = frame.drop(columns="mult") folded into the returned expression
+        orig = rets[0][0].value
+        ok_drop = False
+    rep.check(rule, nx.qual, "mult column dropped from the returned frame after the repetition", ok_drop or _drop_functional(nx), what_bad="mult is appended to the state / dropped before use", what_ok="dropped last", loc=nx.loc())
+    rep.check(rule, nx.qual, "returns the repeated frame", len(rets) == 1, what_bad=f"{len(rets)} top-level returns", what_ok="one return", loc=nx.loc())
     init = prog.role_func("release", "__init__")
     d = [n for n in walk_no_nested(init.node) if isinstance(n, ast.If) and "'mult' not in self._df.columns" in unparse(n.test)]
     ok = len(d) == 1 and any(unparse(x) == "self._df['mult'] = 1" for x in d[0].body)
     rep.check(rule, init.qual, "missing mult column defaults to 1", ok, what_bad="rows without mult release no / undefined numbers of particles", what_ok="mult = 1", loc=init.loc())
     rr = prog.func("release.ParticleReleaser.read_release_file")
     dt = [n for n in walk_no_nested(rr.node) if isinstance(n, ast.Assign) and unparse(n.targets[0]) == "dtypes"]
-    ok = bool(dt) and "mult=int" in unparse(dt[0].value)
+    ok = bool(dt) and ("mult=int" in unparse(dt[0].value) or "'mult': int" in unparse(dt[0].value))
     rep.check(rule, rr.qual, "mult is read as an integer", ok, what_bad="repeat() needs integer counts", what_ok="int", loc=rr.loc())
     tot = [n for n in walk_no_nested(init.node) if isinstance(n, ast.Assign) and unparse(n.targets[0]) == "self.total_particle_count"]
     rep.check(rule, init.qual, "total particle count = sum(mult) + warm particles", bool(tot) and unparse(tot[0].value) == "self._df.mult.sum() + warm_particle_count", what_bad=f"{unparse(tot[0].value) if tot else None}", what_ok="sum of mult", loc=init.loc())
+
+
+def _drop_functional(nx) -> bool:
+    for n in walk_no_nested(nx.node):
+        if isinstance(n, ast.Assign) and isinstance(n.value, ast.Call) and isinstance(n.value.func, ast.Attribute) and n.value.func.attr == "drop" and "'mult'" in unparse(n.value) and unparse(n.targets[0]) == unparse(n.value.func.value):
+            return True
+    return False
 
 
 def positions(prog: Program, rep: Report) -> None:
@@ -192,40 +225,44 @@ def positions(prog: Program, rep: Report) -> None:
 def continuous(prog: Program, rep: Report) -> None:
     rule = "R04.6"
     dz = prog.role_func("release", "discretize")
-    defs = {}
-    for n in walk_no_nested(dz.node):
-        if isinstance(n, ast.Assign) and isinstance(n.targets[0], ast.Name):
-            defs.setdefault(n.targets[0].id, []).append(n.value)
-    ft = defs.get("file_times", [None])[0]
-    rep.check(rule, dz.qual, "file times = distinct release times of the table", ft is not None and unparse(ft) == "df.index.unique()", what_bad=f"{unparse(ft) if ft is not None else None}", what_ok="df.index.unique()", loc=dz.loc())
-    tm = defs.get("times", [None])[0]
-    ok = tm is not None and isinstance(tm, ast.Call) and unparse(tm.func) == "np.arange" and len(tm.args) == 3 and unparse(tm.args[0]) == "file_times[0]" and unparse(tm.args[1]) == "self.stop_time" and unparse(tm.args[2]) in ("np.timedelta64(freq, 's')", "freq")
-    rep.check(rule, dz.qual, "ticks = arange(first file time, stop, signed frequency): anchored at the first file time, stop exclusive", ok, what_bad=f"times = {unparse(tm) if tm is not None else None}", what_ok="arange(file_times[0], stop_time, freq)", loc=dz.loc())
-    b = defs.get("B", [None])[0]
-    ok = b is not None and unparse(b).startswith("df.groupby(df.index).agg(") and "tolist" in unparse(b)
-    rep.check(rule, dz.qual, "row sets per file time are collected as lists (unexplode)", ok, what_bad=f"B = {unparse(b) if b is not None else None}", what_ok="groupby(index).agg(list)", loc=dz.loc())
-    s_defs = [unparse(v) for v in defs.get("S", [])]
-    chain_ok = False
+    # flatten the time_reversal conditional (freq) away: expand top-level statements sequentially
+    recs, env = sequential_expand(dz.node.body)
+    st = [(s_, v) for s_, v in recs if isinstance(s_, ast.Assign) and unparse(s_.targets[0]) == "self._df"]
+    if len(st) != 1:
+        rep.bad(rule, dz.qual, "self._df = <expanded table>", f"{len(st)} top-level assignments to self._df in discretize", dz.loc())
+        return
+    final = st[0][1]
+    chain, root = call_chain(final)
+    names = [c for c, _ in chain]
+    # root: DataFrame of the ticks
+    ticks = None
+    joins0 = [c for n_, c in chain if n_ == "join"]
+    tick_scope = joins0[0].func.value if joins0 else final  # the receiver of join is the tick frame
+    for n in ast.walk(tick_scope):
+        if isinstance(n, ast.Call) and unparse(n.func) == "np.arange":
+            ticks = n
+    okt = ticks is not None and len(ticks.args) == 3 and unparse(ticks.args[0]) in ("df.index.unique()[0]", "self._df.index.unique()[0]") and unparse(ticks.args[1]) == "self.stop_time" and "freq" in unparse(ticks.args[2])
+    rep.check(rule, dz.qual, "ticks = arange(first file time, stop, signed frequency): anchored at the first file time, stop exclusive", okt, what_bad=f"ticks = {unparse(ticks) if ticks is not None else None}", what_ok="arange(file_times[0], stop_time, freq)", loc=dz.loc())
+    joins = [c for n_, c in chain if n_ == "join"]
+    okb = False
+    if joins:
+        j = joins[0]
+        arg = unparse(j.args[0]) if j.args else ""
+        okb = arg.startswith(("df.groupby(df.index).agg(", "self._df.groupby(self._df.index).agg(")) and "tolist" in arg and any(k.arg == "on" for k in j.keywords)
+    rep.check(rule, dz.qual, "row sets per file time are collected as lists (unexplode) and joined on the tick axis", okb, what_bad=f"join argument {short(joins[0], 100) if joins else None}", what_ok="ticks.join(groupby(index).agg(list), on=...)", loc=dz.loc())
+    fills = [(n_, c) for n_, c in chain if n_ in ("ffill", "bfill", "fillna", "pad", "backfill", "interpolate")]
     fill = None
-    for s in s_defs:
-        if s.startswith("T.join(B, on='times')"):
-            calls = []
-            node = ast.parse(s, mode="eval").body
-            while isinstance(node, ast.Call) and isinstance(node.func, ast.Attribute):
-                calls.append((node.func.attr, node))
-                node = node.func.value
-            names = [c for c, _ in reversed(calls)]
-            fills = [c for c in names if c in ("ffill", "bfill", "fillna", "pad", "backfill")]
-            fill = fills[0] if fills else None
-            if fill == "fillna":
-                kw = {k.arg: unparse(k.value) for c, nd in calls if c == "fillna" for k in nd.keywords}
-                fill = "ffill" if kw.get("method") in ("'ffill'", "'pad'") else "fillna(" + str(kw) + ")"
-            chain_ok = names[0] == "join" and "set_index" in names and fill is not None and names.index(fills[0]) > 0
-    rep.check(rule, dz.qual, "ticks joined with the file row sets and filled *forward* in tick order", chain_ok and fill == "ffill", what_bad=f"fill is {fill}; chain {s_defs}: each tick must release the row set of the latest file time at or before it (in simulation order)", what_ok="join -> ffill -> set_index", loc=dz.loc())
-    ok = any(s.startswith("S.explode(") for s in s_defs)
-    rep.check(rule, dz.qual, "row lists exploded back to one row per particle row", ok, what_bad="no explode: each tick would release one row holding lists", what_ok="explode", loc=dz.loc())
-    st = [n for n in walk_no_nested(dz.node) if isinstance(n, ast.Assign) and unparse(n.targets[0]) == "self._df"]
-    rep.check(rule, dz.qual, "the expanded table replaces the release table", len(st) == 1 and unparse(st[0].value) == "S", what_bad="result discarded", what_ok="self._df = S", loc=dz.loc())
+    if fills:
+        n_, c = fills[0]
+        fill = n_
+        if n_ == "fillna":
+            kw = {k.arg: unparse(k.value) for k in c.keywords}
+            fill = "ffill" if kw.get("method") in ("'ffill'", "'pad'") else f"fillna({kw})"
+        if n_ == "pad":
+            fill = "ffill"
+    order_ok = "join" in names and fills and names.index(fills[0][0]) < names.index("join") and "set_index" in names
+    rep.check(rule, dz.qual, "ticks joined with the file row sets and filled *forward* in tick order", bool(order_ok) and fill == "ffill", what_bad=f"fill is {fill}; call chain (outermost first) {names}: each tick must release the row set of the latest file time at or before it (in simulation order)", what_ok="join -> ffill -> set_index", loc=dz.loc())
+    rep.check(rule, dz.qual, "row lists exploded back to one row per particle row", "explode" in names and names.index("explode") < names.index("join") if "join" in names else False, what_bad="no explode after the fill: each tick would release one row holding lists", what_ok="explode", loc=dz.loc())
     dt = [n for n in walk_no_nested(dz.node) if isinstance(n, ast.For) and "astype" in unparse(n)]
     rep.check(rule, dz.qual, "column dtypes restored after explode", bool(dt), what_bad="mult stays an object column: repeat() fails or miscounts", what_ok="astype per column", loc=dz.loc())
     init = prog.role_func("release", "__init__")
@@ -249,8 +286,12 @@ def api_conformance(prog: Program, rep: Report) -> None:
         # kwargs dict for read_csv
         kw_dicts = {}
         for node in walk_no_nested(fi.node):
-            if isinstance(node, ast.Assign) and isinstance(node.targets[0], ast.Name) and isinstance(node.value, ast.Call) and unparse(node.value.func) == "dict":
-                kw_dicts[node.targets[0].id] = [(k.arg, node) for k in node.value.keywords if k.arg]
+            tgt0 = node.targets[0] if isinstance(node, ast.Assign) else (node.target if isinstance(node, ast.AnnAssign) else None)
+            val0 = node.value if isinstance(node, (ast.Assign, ast.AnnAssign)) else None
+            if isinstance(tgt0, ast.Name) and isinstance(val0, ast.Call) and unparse(val0.func) == "dict":
+                kw_dicts[tgt0.id] = [(k.arg, node) for k in val0.keywords if k.arg]
+            if isinstance(tgt0, ast.Name) and isinstance(val0, ast.Dict) and all(isinstance(k, ast.Constant) and isinstance(k.value, str) for k in val0.keys):
+                kw_dicts[tgt0.id] = [(k.value, node) for k in val0.keys]
             if isinstance(node, ast.Assign) and isinstance(node.targets[0], ast.Subscript) and isinstance(node.targets[0].value, ast.Name) and node.targets[0].value.id in kw_dicts and isinstance(node.targets[0].slice, ast.Constant):
                 kw_dicts[node.targets[0].value.id].append((node.targets[0].slice.value, node))
         for node in walk_no_nested(fi.node):
@@ -312,9 +353,9 @@ def run(prog: Program, rep: Report, tier: str) -> None:
     rep.rule("R04.1", "window filters: start inclusive, arms mirrored, pipeline order", 8)
     rep.rule("R04.2", "times / steps / _B aligned: after the last filter, element-wise, order-compatible", 7)
     rep.rule("R04.3", "cursor: release iff step in steps; next once; cursor advanced exactly once per returning path", 5)
-    rep.rule("R04.4", "multiplicity: repeat(mult) of the group, mult dropped afterwards, default 1, integer", 6)
+    rep.rule("R04.4", "multiplicity: repeat(mult) of the group, mult dropped afterwards, default 1, integer", 5)
     rep.rule("R04.5", "position pairing (shared with C16 R16.1)", 3)
-    rep.rule("R04.6", "continuous mode: ticks anchored at the first file time, forward fill, explode", 8)
+    rep.rule("R04.6", "continuous mode: ticks anchored at the first file time, forward fill, explode", 6)
     rep.rule("R04.7", "every pandas keyword used exists in the installed pandas", 9)
     filters(prog, rep)
     alignment(prog, rep)
